@@ -50,7 +50,7 @@ REQUIRED = dict(
              'npoint:valid', 'npoint:inverted', 'npoint:slope', 'npoint:all-equal', 'npoint:smoothed',
              'guillot:inside', 'guillot:outside-bounds', 'guillot:zero-kappa', 'guillot:negative-T',
              'guillot:alpha-outside', 'guillot:negative-kappa', 'guillot:reinit-judged', 'reinit:other-grid-same-n',
-             'reinit:other-planet', 'reinit:planet-set', 'reinit:other-n', 'reinit:first-again', 'array:index', 'array:pressure', 'array:all-equal',
+             'reinit:other-planet', 'reinit:planet-set', 'reinit:other-n', 'reinit:first-again', 'grid:integer-decades', 'array:index', 'array:pressure', 'array:all-equal',
              'rodgers:all-equal', 'nlayers:2', 'nlayers:100', 'grid:simple', 'grid:irregular', 'grid:narrow',
              'via-forward-model', 'via-setter'])
 
@@ -91,6 +91,11 @@ def gen_nlayers(rng):
 def gen_pressure(ctx, rng, n, kinds=('simple', 'irregular', 'narrow', 'taurex')):
     """Layer pressures, strictly decreasing from the surface to the top."""
     kind = kinds[rng.integers(0, len(kinds))]
+    if 2 <= n <= 12 and rng.random() < 0.08:
+        # exact decades written as integers: 10**np.arange(...) is an int64 array
+        hi = int(rng.integers(n - 1, 13))
+        ctx.observe('grid:integer-decades')
+        return 10 ** np.arange(hi, hi - n, -1), 'integer-decades'
     lpmax = rng.uniform(2.0, 8.0)
     if kind == 'narrow':
         dec = 10 ** rng.uniform(-3, 0.3)
@@ -136,6 +141,8 @@ def gen_temps(rng, k):
     elif shape == 2:
         t = np.full(k, t[0])
         t[rng.integers(0, k)] = hi          # a spike
+    if rng.random() < 0.12:
+        return [int(round(v)) for v in t]          # whole-number controls handed over as Python ints
     return [float(v) for v in t]
 
 
